@@ -102,6 +102,11 @@ func (r *recorder) onSubmit(i int, c *agglayertypes.Certificate) {
 			sigOK = crypto.PubkeyToAddress(*pub) == r.n.signer.key.addr
 		}
 	}
+	if pr, ok := c.AggchainData.(*agglayertypes.AggchainDataProof); ok && len(pr.Signature) == 65 {
+		if pub, err := crypto.SigToPub(c.FEPHashToSign().Bytes(), pr.Signature); err == nil {
+			sigOK = crypto.PubkeyToAddress(*pub) == r.n.signer.key.addr
+		}
+	}
 	ev["sig"] = sigOK
 	imported := []tr.M{}
 	for _, ibe := range c.ImportedBridgeExits {
